@@ -44,6 +44,9 @@ res = {"id": a.id, "property": a.prop, "repo_head": subprocess.run(["git", "-C",
 ok = False
 try:
     patch = os.path.join(a.src, "patch.diff")
+    if os.path.exists(os.path.join(a.src, "patch.rebased.diff")):
+        patch = os.path.join(a.src, "patch.rebased.diff")  # same change carried onto the current HEAD by hand
+        res["rebased_by_hand"] = True
     rc, out = run(["git", "apply", "--3way", patch])
     if rc != 0:
         rc, out = run(["git", "apply", patch])
